@@ -385,6 +385,10 @@ class Interp:
         if c.startswith('"'): return RStr([ord(x) for x in unescape(c[1:-1])])
         if c.startswith('b"'): return ('bytes', unescape_bytes(c[2:-1]))
         if c.startswith("'"): return ord(unescape(c[1:-1]))
+        m = re.match(r'^ZeroSized: \{closure@([^}]*)\}$', c)
+        if m: return Closure(m.group(1), [])
+        m = re.match(r'^ZeroSized: (.+)$', c)
+        if m: return FnItem(m.group(1))
         m = re.match(r'^(.*)::promoted\[(\d+)\]$', c)
         if m:
             key = [k for k in self.consts if k.endswith(f'::promoted[{m.group(2)}]') and strip_generics(m.group(1)).endswith(strip_generics(k.rsplit('::promoted', 1)[0]))]
